@@ -150,6 +150,12 @@ func runC11(cfg *config, res *monitor.Result) {
 		for i := 0; i < nvals; i++ {
 			cases = append(cases, g.Random(t.md))
 		}
+		// self-recursive types: a chain far deeper than any generated value (the runtimes themselves limit nesting at 10000)
+		for _, dc := range deepChains(t.md, 130) {
+			tv := g.Random(t.md)
+			tv.Msg, tv.Class, tv.Field = dc, "deep-chain-130", ""
+			cases = append(cases, tv)
+		}
 		viol := func(fn, failure, what string, d *dynamicpb.Message) {
 			sig := fmt.Sprintf("C11:%s:%s:%s:%s", t.pkg.Flavour, kind, fn, failure)
 			res.Violate(sig, fmt.Sprintf("%s (%s): %s", t.md.FullName(), t.pkg.GoPkg, what),
